@@ -17,4 +17,8 @@ ASEMON_VERIF_DIR="$VERIF_DIR" ./target/checked/asemon selfcheck || echo "WARNING
 # warm the Miri build of the C16 workload (the check rebuilds only what changed)
 MIRIFLAGS="-Zmiri-many-seeds=0..1" CARGO_TARGET_DIR="$VERIF_DIR/harness/target/miri-t" \
   cargo +nightly miri run --offline --quiet --bin c16_miri -- 1 1 >/dev/null 2>&1 || echo "WARNING: Miri warm-up failed (C16 would be inconclusive)"
+# warm the 32-bit (i686) Miri sysroot and the build of the C04 32-bit driver
+mkdir -p "$VERIF_DIR/harness/target/empty32"
+(cd "$VERIF_DIR/harness32" && MIRIFLAGS=-Zmiri-disable-isolation CARGO_TARGET_DIR="$VERIF_DIR/harness/target/miri32-t" \
+  cargo +nightly miri run --offline --quiet --target i686-unknown-linux-gnu -- "$VERIF_DIR/harness/target/empty32" >/dev/null 2>&1) || echo "WARNING: 32-bit Miri warm-up failed (C04 would be inconclusive)"
 echo "setup done"
